@@ -6778,6 +6778,7 @@ ZSTD_copySequencesToSeqStoreNoBlockDelim(ZSTD_CCtx* cctx, ZSTD_sequencePosition*
     ZSTD_memcpy(cctx->blockState.nextCBlock->rep, updatedRepcodes.rep, sizeof(repcodes_t));
 
     iend -= bytesAdjustment;
+    RETURN_ERROR_IF(ip > iend, externalSequences_invalid, "Sequences overrun the source");
     if (ip != iend) {
         /* Store any last literals */
         U32 lastLLSize = (U32)(iend - ip);
